@@ -413,6 +413,16 @@ func zvISReach(l *packet.LSPDU) []string {
 	return r
 }
 
+func zvClamp(v, lo, hi int) int {
+	if v < lo {
+		return lo
+	}
+	if v > hi {
+		return hi
+	}
+	return v
+}
+
 // ---------------------------------------------------------------------------
 // crash classification
 
